@@ -29,6 +29,22 @@ class Rep(int):
         return 'Rep(%d)' % int(self)
 
 
+class Tagged(int):
+    """an integer that remembers what it was measured on (a set of tags): `s.len()`, and whatever is computed from it or
+    bounded by it. Lets a rule ask whether a position taken in one sequence was derived from the length of another."""
+    def __new__(cls, v, tags=()):
+        o = int.__new__(cls, v)
+        o.tags = frozenset(tags)
+        return o
+
+    def __repr__(self):
+        return 'Tagged(%d, %s)' % (int(self), sorted(self.tags))
+
+
+def tags_of(v):
+    return getattr(v, 'tags', frozenset())
+
+
 class Sym(tuple):
     """opaque value: ('sym', text)"""
 
@@ -68,6 +84,7 @@ class Machine:
         self.cur = None
         self.trace = []
         self.heap_n = 0
+        self.events = []
 
     # ------------------------------------------------------------------ values
     def alloc(self, v, name=None):
@@ -243,6 +260,9 @@ class Machine:
             r = a | b
         else:
             raise Unknown('binop %s' % op)
+        tg = tags_of(a) | tags_of(b)
+        if tg and isinstance(r, int):
+            r = Tagged(r, tg)
         return ('tuple', [r, 0]) if op.endswith('WithOverflow') else r
 
     def check_const_compare(self, a, b):
